@@ -354,6 +354,19 @@ inline void runC05(Ctx &c)
                 w = std::max(w, (gc.start - (a * g1.start + b * g2.start)).cwiseAbs().maxCoeff());
                 w = std::max(w, (gc.end - (a * g1.end + b * g2.end)).cwiseAbs().maxCoeff());
                 c.check("C05.linearity", sc > 0 ? w / sc : (w == 0 ? 0 : INFINITY), 1e-8, gkey(p, "linearity"));
+                // homogeneity over many orders of magnitude (tiny and huge upstream gradients are scaled, not dropped)
+                {
+                    double sf = r.pick(std::vector<double>{1e-14, 1e-10, 1e-6, 1e6, 1e12});
+                    Grads gsc = s->propagate(sf * u.gC, sf * u.gT, refOv);
+                    double m1 = gradsMaxAbs(g1);
+                    double wsc = 0;
+                    if (g1.inner.size())
+                        wsc = std::max(wsc, (gsc.inner - sf * g1.inner).cwiseAbs().maxCoeff());
+                    wsc = std::max(wsc, (gsc.times - sf * g1.times).cwiseAbs().maxCoeff());
+                    wsc = std::max(wsc, (gsc.start - sf * g1.start).cwiseAbs().maxCoeff());
+                    wsc = std::max(wsc, (gsc.end - sf * g1.end).cwiseAbs().maxCoeff());
+                    c.check("C05.homogeneity", m1 > 0 ? wsc / (sf * m1) : (wsc == 0 ? 0 : INFINITY), 1e-9, gkey(p, "linearity"), "scale=" + jnum(sf));
+                }
                 // zero upstream gives exactly zero
                 Grads gz = s->propagate(MatrixXd::Zero(u.gC.rows(), u.gC.cols()), VectorXd::Zero(p.N), refOv);
                 c.require("C05.zero_upstream_zero_result", gradsMaxAbs(gz) == 0, gkey(p, "linearity"));
@@ -576,6 +589,18 @@ inline void runC13(Ctx &c)
                 for (int j = 0; j < p.dim; ++j)
                     if (j != hot)
                         u.gC.col(j).setZero();
+            {
+                // magnitudes of the upstream gradient span many orders, also per coordinate (all comparisons are relative)
+                int sm = r.range(0, 5);
+                if (sm == 0)
+                {
+                    double sf = r.pick(std::vector<double>{1e-13, 1e-9, 1e5});
+                    u.gC *= sf;
+                    u.gT *= sf;
+                }
+                else if (sm == 1 && p.dim > 1)
+                    u.gC.col(r.range(0, p.dim - 1)) *= r.pick(std::vector<double>{1e-13, 1e-10});
+            }
             c.dump = [&]() { return JObj().b("one_hot", onehot).str("upstream", u.kind).raw("gC", jmat(u.gC, true)).raw("gT", jvec(u.gT, true)).raw("problem", dumpProblem(p)).done(); };
             if (problemNontrivial(p))
                 c.nontrivial(hashProblem(p));
@@ -651,8 +676,22 @@ inline void runC13(Ctx &c)
             }
             c.check("C13.evaluations_vs_1d_stack", wEval, 1e-10, gkey(p, "evaluation"));
             double gsc = std::max(gradsMaxAbs(g), gradsMaxAbs(gs));
-            c.check("C13.propagated_points_vs_1d", relMat(g.inner, gs.inner, gsc), 1e-10, gkey(p, "propagated_inner"));
-            c.check("C13.propagated_boundary_vs_1d", std::max(relMat(g.start, gs.start, gsc), relMat(g.end, gs.end, gsc)), 1e-10, gkey(p, "propagated_boundary"));
+            {
+                // coordinate by coordinate, each against its own magnitude (coordinates may differ by many orders)
+                double wI = 0, wB = 0;
+                for (int j = 0; j < p.dim; ++j)
+                {
+                    double cs = std::max(g.start.col(j).cwiseAbs().maxCoeff(), g.end.col(j).cwiseAbs().maxCoeff());
+                    cs = std::max(cs, std::max(gs.start.col(j).cwiseAbs().maxCoeff(), gs.end.col(j).cwiseAbs().maxCoeff()));
+                    if (p.N > 1)
+                        cs = std::max(cs, std::max(g.inner.col(j).cwiseAbs().maxCoeff(), gs.inner.col(j).cwiseAbs().maxCoeff()));
+                    if (p.N > 1)
+                        wI = std::max(wI, relMat(g.inner.col(j), gs.inner.col(j), cs));
+                    wB = std::max(wB, std::max(relMat(g.start.col(j), gs.start.col(j), cs), relMat(g.end.col(j), gs.end.col(j), cs)));
+                }
+                c.check("C13.propagated_points_vs_1d", wI, 1e-10, gkey(p, "propagated_inner"));
+                c.check("C13.propagated_boundary_vs_1d", wB, 1e-10, gkey(p, "propagated_boundary"));
+            }
             c.check("C13.propagated_times_is_sum", relMat(g.times, gs.times, gsTimesAbs.maxCoeff()), 1e-8, gkey(p, "propagated_times"));
             double esc = std::max(gradsMaxAbs(eg), gradsMaxAbs(egs));
             c.check("C13.energy_grad_points_vs_1d", std::max(relMat(eg.inner, egs.inner, esc), std::max(relMat(eg.start, egs.start, esc), relMat(eg.end, egs.end, esc))), 1e-10, gkey(p, "energy_grad"));
@@ -981,6 +1020,30 @@ inline void runC14(Ctx &c)
                     if (acc.seen[g])
                         w = std::max(w, acc.value(g));
                 c.check("C14.reversal.mirrored_energy_gradients", w, 1e-6, gkey(p, "reversal"));
+                // the same through gradient propagation (the energy partials of each spline propagated by that spline)
+                {
+                    Grads pr = s->propagate(s->partialC(false), s->partialT(false), false);
+                    Grads pr2 = sq->propagate(sq->partialC(false), sq->partialT(false), false);
+                    Grads px = pr;
+                    for (int i = 0; i < p.N; ++i)
+                        px.times(i) = pr.times(p.N - 1 - i);
+                    for (int i = 0; i < p.N - 1; ++i)
+                        px.inner.row(i) = pr.inner.row(p.N - 2 - i);
+                    for (int d = 0; d <= 3; ++d)
+                    {
+                        double sg = (d % 2) ? -1.0 : 1.0;
+                        px.start.row(d) = sg * pr.end.row(d);
+                        px.end.row(d) = sg * pr.start.row(d);
+                    }
+                    GroupAcc acc2;
+                    for (auto &x : enumerateInputs(q))
+                        acc2.add(x.group, gradAt(pr2, x), gradAt(px, x), 1e-9 * (double)Eabs / inputScale(q, x));
+                    double w2 = 0;
+                    for (int g = 0; g < kNumGroups; ++g)
+                        if (acc2.seen[g])
+                            w2 = std::max(w2, acc2.value(g));
+                    c.check("C14.reversal.mirrored_propagated_gradients", w2, 1e-6, gkey(p, "reversal"));
+                }
                 c.event("relation.reversal");
                 break;
             }
@@ -1114,10 +1177,13 @@ inline void runC10(Ctx &c)
                         }
                         else if (k == 4)
                         {
-                            cur.T = old.T;
-                            double eps = std::pow(10.0, -(double)r.range(7, 12));
-                            for (auto &t : cur.T)
-                                t *= 1.0 + eps * r.uni(-1, 1);
+                            cur = old;
+                            double eps = std::pow(10.0, -(double)r.range(6, 12));
+                            if (r.coin())
+                                for (auto &t : cur.T)
+                                    t *= 1.0 + eps * r.uni(-1, 1);
+                            else
+                                cur.P(r.range(0, cur.N), r.range(0, cur.dim - 1)) += eps * (r.coin() ? 1 : -1);
                         }
                         else if (k == 1)
                         {
